@@ -164,3 +164,34 @@ func vh_C13_LateReader() {
 	vfAssert("actor-still-serves", vfAnd(err2 == nil, r2 == vfFn("R", fresh)))
 	vfReach("end")
 }
+
+// the instance-method constructors Ask.New / Ask.NewByOptions (also with a caller-made buffered reply channel)
+func vh_C13_UtilInstance() {
+	actor := ActorNewGenerics(func(self *ActorDef[interface{}], m interface{}) {
+		if ask, ok := m.(*AskDef[interface{}, interface{}]); ok {
+			ask.Reply(vfFn("R", ask.Message.(int)))
+		}
+	})
+	x := vfInt("x")
+	var ask *AskDef[interface{}, interface{}]
+	switch vfChoose("ctor", 3) {
+	case 0:
+		ask = Ask.New(x)
+	case 1:
+		ask = Ask.NewByOptions(x, make(chan interface{}))
+	default:
+		ask = Ask.NewByOptions(x, make(chan interface{}, 1))
+	}
+	var got interface{}
+	var err error
+	vfNoPanic("nopanic-ask", func() {
+		if vfChoose("how", 2) == 0 {
+			got = ask.AskOnce(actor)
+		} else {
+			got, err = ask.AskOnceWithTimeout(actor, time.Second)
+		}
+	})
+	vfAssert("in-time-no-error", err == nil)
+	vfAssert("own-reply", got == interface{}(vfFn("R", x)))
+	vfReach("end")
+}
